@@ -7,6 +7,9 @@ version:  `ver l<code points>`            → `ok none` | `exc ValueError` | `ok
           `tbl pe|enum <key>`             → looked-up text (code points) + the `ver` answer for it
           `cfg <stamp none|int> l<enums>` → `ok <text>` | `exc ValueError`   (BeaconConfig.version precedence)
           `fmt <maj> <min> <patch none|n> <y> <m> <d>` → formatted text + its `ver` answer
+          `hist l<enums> <op|op|…>`       → outputs of the reads of a history on ONE BeaconConfig (ops r m s<v> c<v> a<v>), joined by ` | `
+          `verhist <l..|l..|…>`           → `ver` answers of successive BeaconVersion constructions
+          `pehist <kind> <data> <maxrange> <op:start:seek:expect|…>` → answers of successive pe.find_* calls on ONE file object
           `cls <lo> <hi>`                 → one character per code point in [lo, hi): `s` = `\s`, `0`..`9` = value of a `\d`, `-`
           `mono pe|enum <k1> <k2>`        → `T`/`F`: k1 < k2 ⇒ (tuple, date) of k1 ≤ those of k2 (both keys in the table)
 -/
@@ -36,33 +39,74 @@ def showVer : Py (Option VersionInfo) → String
 
 def mkFile (k : FileKind) (d : Bytes) (pos : Nat) : PyFile := { data := d, pos := pos, kind := k }
 
-def peOp (op : String) (f : PyFile) (start : Option Nat) (maxrange : Nat) : String :=
+/-- one `pe.find_*` call: rendered answer (result tokens + final `fh.tell()`) and the file afterwards -/
+def peOpF (op : String) (f : PyFile) (start : Option Nat) (maxrange : Nat) : Option (String × PyFile) :=
   match op with
   | "mz" =>
     let r := findMzOffset f start maxrange
-    s!"{showOptNat r.1} {r.2.tell}"
+    some (s!"{showOptNat r.1} {r.2.tell}", r.2)
   | "arch" =>
     let r := findArchitecture f start maxrange
-    s!"{match r.1 with | none => "none" | some a => a.name} {r.2.tell}"
+    some (s!"{match r.1 with | none => "none" | some a => a.name} {r.2.tell}", r.2)
   | "stamps" =>
     let r := findCompileStamps f start maxrange
     match r.1 with
-    | .error e => "exc " ++ e.name
-    | .ok (c, x) => s!"ok {showOptInt c} {showOptInt x} {r.2.tell}"
+    | .error e => some ("exc " ++ e.name, r.2)
+    | .ok (c, x) => some (s!"ok {showOptInt c} {showOptInt x} {r.2.tell}", r.2)
   | "mmz" =>
     let r := findMagicMz f start maxrange
-    s!"{showOptBytes r.1} {r.2.tell}"
+    some (s!"{showOptBytes r.1} {r.2.tell}", r.2)
   | "mpe" =>
     let r := findMagicPe f start maxrange
     match r.1 with
-    | .error e => "exc " ++ e.name
-    | .ok m => s!"ok {showOptBytes m} {r.2.tell}"
+    | .error e => some ("exc " ++ e.name, r.2)
+    | .ok m => some (s!"ok {showOptBytes m} {r.2.tell}", r.2)
   | "ppa" =>
     let r := findStagePrependAppend f start maxrange
     match r.1 with
-    | .error e => "exc " ++ e.name
-    | .ok (p, a) => s!"ok {showOptBytes p} {showOptBytes a} {r.2.tell}"
-  | _ => "bad-op"
+    | .error e => some ("exc " ++ e.name, r.2)
+    | .ok (p, a) => some (s!"ok {showOptBytes p} {showOptBytes a} {r.2.tell}", r.2)
+  | _ => none
+
+def peOp (op : String) (f : PyFile) (start : Option Nat) (maxrange : Nat) : String :=
+  match peOpF op f start maxrange with
+  | some r => r.1
+  | none => "bad-op"
+
+/-- several calls on the SAME file object: items `op:start:seek:expect` (`seek` = `-` or an absolute `fh.seek` before the call) -/
+def peHistory (maxrange : Nat) : PyFile → List String → Option (List String)
+  | _, [] => some []
+  | f, item :: rest =>
+    match item.splitOn ":" with
+    | [op, start, sk, _expect] =>
+      match optTok natTok start, (if sk == "-" then some none else (natTok sk).map some) with
+      | some start, some sk =>
+        let f0 := match sk with
+          | some p => seekNat f p
+          | none => f
+        match peOpF op f0 start maxrange with
+        | some (out, f1) => (peHistory maxrange f1 rest).map (out :: ·)
+        | none => none
+      | _, _ => none
+    | _ => none
+
+def archTok (s : String) : Option (Option Arch) :=
+  if s == "none" then some none else if s == "x86" then some (some .x86) else if s == "x64" then some (some .x64) else none
+
+/-- `r` read version, `m` read max_setting_enum, `s<int|none>` / `c<int|none>` / `a<x86|x64|none>` attribute assignments -/
+def cfgOpTok (s : String) : Option CfgOp :=
+  match s.toList with
+  | ['r'] => some .readVersion
+  | ['m'] => some .readMaxEnum
+  | 's' :: r => (optTok intTok (String.ofList r)).map .setExportStamp
+  | 'c' :: r => (optTok intTok (String.ofList r)).map .setCompileStamp
+  | 'a' :: r => (archTok (String.ofList r)).map .setArch
+  | _ => none
+
+def showCfgOut : CfgOut → String
+  | .version (.error e) => "exc " ++ e.name
+  | .version (.ok t) => s!"{showNats t} {showVer (parseVersion t)}"
+  | .maxEnum r => showPy toString r
 
 def step : List String → String
   | ["fmt", maj, mn, patch, y, m, d] =>
@@ -95,6 +139,21 @@ def step : List String → String
       else if which == "enum" then showBool (monotoneAt Gen.Version.maxEnumEntries k1 k2)
       else "bad-op"
     | _, _ => "bad-op"
+  | ["hist", enums, ops] =>
+    match natsTok enums, (ops.splitOn "|").mapM cfgOpTok with
+    | some enums, some ops => " | ".intercalate ((cfgRun enums {} ops).map showCfgOut)
+    | _, _ => "bad-op"
+  | ["verhist", ts] =>
+    match (ts.splitOn "|").mapM natsTok with
+    | some ts => " | ".intercalate (ts.map fun t => showVer (parseVersion t))
+    | none => "bad-op"
+  | ["pehist", k, d, maxrange, calls] =>
+    match kindTok k, bytesTok d, natTok maxrange with
+    | some k, some d, some maxrange =>
+      match peHistory maxrange (mkFile k d 0) (calls.splitOn "|") with
+      | some outs => " | ".intercalate outs
+      | none => "bad-op"
+    | _, _, _ => "bad-op"
   | ["cls", lo, hi] =>
     match natTok lo, natTok hi with
     | some lo, some hi =>
